@@ -123,7 +123,13 @@ def run(prop, tier, seed, plan, replay_dir=None, merge=False, full=False):
                 if "closed channel" in cause:
                     props |= {"C06"}
                 if prop not in props:
-                    explained += 0
+                    # not this property's business, but never silently dropped: the history is kept for inspection
+                    nd = os.path.join(HERE, "replays", "note-%s-%s-%d-%d" % (prop, pname, sd, idx))
+                    shutil.rmtree(nd, ignore_errors=True)
+                    os.makedirs(nd)
+                    open(os.path.join(nd, "history.ndjson"), "w").writelines(history_of(hist, idx))
+                    json.dump(dict(property="C07", seed=sd, nprog=idx + 1, program=idx, cause=cause, **{"pass": pname}), open(os.path.join(nd, "violation.json"), "w"))
+                    log("note: %s program %d (seed %d) cause=%s concerns %s, not %s; history kept in %s" % (pname, idx, sd, cause, ",".join(sorted(props)), prop, nd))
                     continue
                 k = engines.match_known(prop, cause, kf)
                 if k:
